@@ -45,6 +45,11 @@ CLAIMED.update({
             "SSA partial evaluation per input byte -> pushdown system extraction -> product with a reference recogniser (bounded nesting + observation-depth argument)", "§4 C12"),
 })
 
+CLAIMED.update({
+    "C14": ("Static decision on per-byte summaries of every state function of the schema and enum scanners (SSA partial evaluation): LF and CR have identical rows in every state; SPACE and TAB have identical rows in every between-token state; and in the loader rule names are compared only after TrimSpaces().Unquote(). Exhaustive over states and bytes. Does not decide equality of AST/example/OpenAPI across spellings nor inline vs multi-line annotation equivalence.",
+            "SSA partial evaluation per input byte -> row equality between byte classes; typed-AST normalisation check", "§4 C14"),
+})
+
 NOT_YET = {}
 
 NOT_APPLICABLE = {
